@@ -477,6 +477,7 @@ func bodyPlace(c *hk.Ctx, prop string) {
 			}
 		}
 		viol("C13", "invalid-configuration-rejected", sig, "the workflow has %s but the environment was configured", sc.Expect)
+		return // an invalid configuration has no right endpoints to compare with
 	}
 	if err != nil {
 		if !dangling && !aliasClash && strings.Contains(errStr(err), "channel") {
